@@ -145,6 +145,7 @@ class Interval(Duration, Generic[_T]):
                         start.second,
                         start.microsecond,
                         tzinfo=start.tzinfo,
+                        fold=start.fold,
                     ),
                 )
             else:
@@ -171,6 +172,7 @@ class Interval(Duration, Generic[_T]):
                         end.second,
                         end.microsecond,
                         tzinfo=end.tzinfo,
+                        fold=end.fold,
                     ),
                 )
             else:
